@@ -733,8 +733,30 @@ func registerSymExternals() {
 				}
 				return declined{}
 			}
-			fr.i.ex.noteAssumption("formatting stub: " + n + " of a symbolic number yields a placeholder text")
-			return symPlaceholder
+			// complete concretisation when the value has few feasible values on this path
+			if sv, ok := args[0].(*symv); ok && sv.sort == sBV && n != "strconv.FormatFloat" {
+				if _, okb := args[len(args)-1].(*symv); !okb || len(args) == 1 {
+					if v, ok := fr.i.ex.tryConcretizeSmall(fr, sv, n != "strconv.FormatUint"); ok {
+						nargs := append([]value{}, args...)
+						switch args[0].(type) {
+						default:
+							switch n {
+							case "strconv.Itoa":
+								nargs[0] = int(v)
+							case "strconv.FormatUint":
+								nargs[0] = uint64(v)
+							default:
+								nargs[0] = v
+							}
+						}
+						if r, ok := fr.i.callHost(hostFuncs[n], nargs); ok {
+							return r
+						}
+					}
+				}
+			}
+			fr.i.ex.noteAssumption("formatting stub: " + n + " of a symbolic number with many feasible values yields an opaque text (any computation on it ends the path as undecided)")
+			return poisonStr()
 		}
 	}
 	for _, n := range []string{"strconv.AppendInt", "strconv.AppendUint", "strconv.AppendFloat"} {
@@ -743,8 +765,8 @@ func registerSymExternals() {
 			if allConcrete(args) {
 				return declined{}
 			}
-			fr.i.ex.noteAssumption("formatting stub: " + n + " of a symbolic number yields a placeholder text")
-			return append(args[0].([]value), []value(toSymstr(symPlaceholder))...)
+			fr.i.ex.noteAssumption("formatting stub: " + n + " of a symbolic number yields an opaque text (any computation on it ends the path as undecided)")
+			return append(args[0].([]value), []value(poisonStr())...)
 		}
 	}
 
